@@ -50,7 +50,10 @@ where
     let mut accumulated_slack = Probability::zero();
 
     Ok(probabilities.iter().map(move |probability_float| {
-        let left_cumulative = (cumulative_float * scale).as_() + accumulated_slack;
+        // Rounding errors must not push the non-leaky part beyond `free_weight` (which could
+        // otherwise leave no probability mass for the remaining symbols).
+        let non_leaky = core::cmp::min((cumulative_float * scale).as_(), free_weight);
+        let left_cumulative = non_leaky + accumulated_slack;
         cumulative_float = cumulative_float + *probability_float;
         accumulated_slack = accumulated_slack.wrapping_add(&Probability::one());
         left_cumulative
@@ -94,7 +97,8 @@ where
                 return Err(());
             }
             let prob: f64 = prob.into();
-            let current_free_weight = (prob * scale).as_();
+            // Rounding errors must not make us hand out more than the remaining free weight.
+            let current_free_weight = core::cmp::min((prob * scale).as_(), remaining_free_weight);
             remaining_free_weight = remaining_free_weight - current_free_weight;
             let weight = current_free_weight + Probability::one();
 
